@@ -115,7 +115,23 @@ func LoadRepoOverlay(repo string, patterns []string, wantSSA bool, overlay map[s
 	// see-through for helpers that do not exist on the reference tree (inline.go)
 	inlined := false
 	if !noInlineGlobal {
+		// renamed identifiers are given their reference names back first (rename.go)
+		renamed, rnotes := renameBack(c)
+		if len(renamed) > 0 {
+			if err := rebuildAll(c, false); err != nil {
+				noInlineGlobal = true
+				c2, err2 := LoadRepoOverlay(repo, patterns, wantSSA, overlay, extraEnv...)
+				noInlineGlobal = false
+				if err2 != nil {
+					return nil, err2
+				}
+				c2.InlineNotes = append(rnotes, "rename normalisation abandoned (renamed program does not type-check: "+err.Error()+"); analysed as written")
+				return c2, nil
+			}
+		}
 		changed, notes := inlinePackages(c)
+		notes = append(rnotes, notes...)
+		changed = changed || len(renamed) > 0
 		c.InlineNotes = notes
 		if changed {
 			if err := rebuildAll(c, wantSSA); err != nil {
